@@ -995,6 +995,31 @@ def run(ck):
     ck.coverage.update(ostats)
     ck.coverage["cases_in_known_classes"] = dict(sorted(known_counts.items()))
 
+    # ---- parts: the type unifier (Props/C04_typing.v, checks/typing_part.py) and the CST -> AST lowering (Props/C04_lower.v,
+    # checks/lower_part.py); each returns (what, replay_obj) pairs ----
+    import importlib.util as _ilu0
+    if os.path.join(VERIF, "checks") not in sys.path:
+        sys.path.insert(0, os.path.join(VERIF, "checks"))
+    def _load_part(name):
+        sp = _ilu0.spec_from_file_location("part_" + name, os.path.join(VERIF, "checks", name + ".py"))
+        m = _ilu0.module_from_spec(sp); sp.loader.exec_module(m)
+        return m
+    part_viol = []
+    quick_ = tier == "quick"
+    _known0 = ck.known
+    try:
+        part_viol += [("typing part: " + w, rp) for w, rp in _load_part("typing_part").run_part(ck, quick_)]
+    except Exception as ex:      # a part that cannot run is a broken obligation, not a crash of the whole check
+        part_viol.append(("the type-unifier part could not run: %r" % (ex,), {"no_input": True}))
+    ck.known = lambda f, d: None          # findings the lowering part classifies belong to C16 and are reported by ./check C16
+    try:
+        part_viol += [("lowering part: " + w, rp) for w, rp in _load_part("lower_part").run_part(ck, quick_)]
+    except Exception as ex:
+        part_viol.append(("the lowering part could not run: %r" % (ex,), {"no_input": True}))
+    ck.known = _known0
+    for what, rp in part_viol[:6]:
+        ck.violation(what, {k: v for k, v in rp.items() if k != "no_input"}, no_input=bool(rp.get("no_input")))
+
     # ---- verdicts ----
     def replay_obj(origin, t, extra):
         d = {"origin": origin, "text": t if len(t) < 4000 else t[:4000] + "...", "hex": utf8(t).hex(),
@@ -1028,7 +1053,7 @@ def run(ck):
         ck.violation("Parser model and parse_cst disagree (no clause of the property fails on the explored inputs)",
                      replay_obj(origin, t, {"correspondence": "Parser.Model.parse vs parser::parse_cst", "model": m_, "implementation": i_,
                                             "disagreements": len(disagreements)}), no_input=True)
-    if (not proved or ck.broken) and not clause_fail and not disagreements and not crashed and not oracle_bad and not hangs:
+    if (not proved or ck.broken) and not clause_fail and not disagreements and not crashed and not oracle_bad and not hangs and not part_viol:
         ck.violation("a proof obligation of Props/C04.v (or its translator) no longer checks", {"broken": ck.broken}, no_input=True)
     return finish(ck)
 
@@ -1044,7 +1069,11 @@ def finish(ck):
                      "flags the real tokenizer/preparser produced). Type checking and code generation are not modelled: their totality is checked by the "
                      "supervised crash/hang oracle only; the panics / aborts / malformed spans it finds on the real entry points are genuine defects, "
                      "recorded one per identified cause in KNOWN_FINDINGS.txt (F40..F59) with a class predicate on panic site, message and text; "
-                     "anything outside those classes is a VIOLATION."),
+                     "anything outside those classes is a VIOLATION.  PARTS: Typing/ (Props/C04_typing.v): the unifier of typing/unification.rs — the occurs "
+                     "check keeps the store acyclic, unification and resolution terminate within an explicit fuel bound, tied to the code by sequences of "
+                     "real unify calls (hook H3); Lower/ (Props/C04_lower.v): ALL of lower.rs (CST -> AST) transcribed, proved total with fuel 2*tsize on "
+                     "every tree and token table (no panic, no index out of range), every span end a token boundary (hence inside the text on character "
+                     "boundaries), tied to the code by comparing the complete Program with every Location on the C04 streams."),
         trusted_base=["Coq 8.16.1 kernel (coqc, vm_compute; no native_compute)",
                       "extraction: ExtrOcamlBasic + ExtrOcamlString only; OCaml 4.13.1; ocaml/parser_drv.ml driver",
                       "translator translators/token_kinds.py (regex over token.rs/green.rs/cst_parser.rs; hash pins of the hand-transcribed functions)",
